@@ -14,7 +14,7 @@ namespace {
 
 std::string gExe, gWork;
 std::vector<std::string> gNets;
-int gMaxDepth = 6;
+int gMaxDepth = 6, gAnswerMs = 120000, gMaxThreads = 8;
 
 struct SearchCase {
     std::vector<std::string> setopts; // full "setoption ..." lines sent before this search
@@ -80,7 +80,7 @@ std::vector<std::string> genSetopts(Choices& c, bool first, bool& throttled) {
     for (int i = 0; i < n; i++) {
         switch (c.pick(14)) {
         case 0: add("Hash", std::to_string(c.of(std::vector<int>{1, 2, 3, 8, 16, 64}))); break;
-        case 1: add("Threads", std::to_string(c.range(1, 8))); break;
+        case 1: add("Threads", std::to_string(c.range(1, gMaxThreads))); break;
         case 2: case 3: add("MultiPV", std::to_string(c.range(1, 5))); break;
         case 4: add("Strength", std::to_string(c.chance(1, 3) ? c.range(0, 200) : c.range(0, 1000))); break;
         case 5: add("UCI_LimitStrength", c.flip() ? "true" : "false"); break;
@@ -235,7 +235,7 @@ std::string runCase(const Case& k, vh::Stats& st, bool& inconclusive, std::strin
             else e.send("stop");
         }
         e.scanPos = from;
-        int bi = e.waitPrefix("bestmove", 120000);
+        int bi = e.waitPrefix("bestmove", gAnswerMs);
         if (bi < 0) {
             if (e.tryReap()) { err = "engine died during search " + std::to_string(idx) + ": " + e.exitDesc() + " " + e.stderrText(600); break; }
             inconclusive = true; break;
@@ -253,7 +253,11 @@ std::string runCase(const Case& k, vh::Stats& st, bool& inconclusive, std::strin
         else { std::string se = e.stderrText(); if (se.find("Sanitizer") != std::string::npos || se.find("runtime error:") != std::string::npos) err = "sanitizer report: " + se.substr(0, 800); }
     }
     if (!err.empty()) { Value t = e.transcript(200); transcript = vj::dump(t); }
-    if (inconclusive && getenv("C03_DEBUG")) { fprintf(stderr, "INCONCLUSIVE %s\n%s\n", vj::dump(toJson(k)).c_str(), vj::dump(e.transcript(30)).c_str()); }
+    if (inconclusive && getenv("C03_DEBUG")) {
+        fprintf(stderr, "INCONCLUSIVE-AT search %d\n", idx);
+        int shown = 0;
+        for (size_t i = e.log.size(); i-- > 0 && shown < 4000;) if (e.log[i].dir == '>') { fprintf(stderr, "  [%zu] %s\n", i, e.log[i].line.c_str()); if (++shown > 12) break; }
+        for (size_t i = 0; i < e.log.size() && i < 60; i++) fprintf(stderr, "  %c %s\n", e.log[i].dir, e.log[i].line.substr(0, 150).c_str()); fprintf(stderr, "INCONCLUSIVE %s\n%s\n", vj::dump(toJson(k)).c_str(), vj::dump(e.transcript(30)).c_str()); }
     e.kill();
     return err;
 }
@@ -301,6 +305,8 @@ int main(int argc, char** argv) {
     vh::ctx().shrinkBudget = a.num("shrink", 80);
     gExe = a.str("engine", "/verif/build/asan/bin/texel");
     gMaxDepth = (int)a.num("max-depth", 6);
+    gAnswerMs = (int)a.num("answer-ms", 120000);
+    gMaxThreads = (int)a.num("max-threads", 8);
     std::string nets = a.str("nets", "/verif/build/nets/material-1.net");
     size_t p = 0;
     while (p <= nets.size()) { size_t q = nets.find(',', p); if (q == std::string::npos) q = nets.size(); if (q > p) gNets.push_back(nets.substr(p, q - p)); p = q + 1; }
@@ -313,12 +319,12 @@ int main(int argc, char** argv) {
             for (int i = 0; i < (int)a.num("repeat", 3); i++) runAndJudge(sub, c, st);
         });
     } else {
-        vh::runProp("configs", a.cases, 3.0, [&](Choices& c) {
+        vh::runProp("configs", a.cases, 8.0, [&](Choices& c) {
             Case k;
             k.net = c.pick((int)gNets.size());
             int n = c.range(1, 6);
             bool throttled = false;
-            for (int i = 0; i < n; i++) k.s.push_back(genSearch(c, i == 0, throttled));
+            for (int i = 0; i < n && (i == 0 || !c.empty()); i++) k.s.push_back(genSearch(c, i == 0, throttled));
             runAndJudge("configs", k, st);
         });
         rc = vh::finish();
